@@ -28,7 +28,18 @@ from ..par import pmap
 from ..tlc import run_tlc
 
 PID = "C11"
-MAX_VIOLATIONS = 40
+MAX_VIOLATIONS = 60          # listed individually; the rest is counted
+MAX_PER_KIND_CLAUSE = 3
+
+
+def _room(ctx: Ctx, kind_name: str, clause: str) -> bool:
+    """Keeps the list of reported violations diverse: a few per (aggregator kind, clause)."""
+    k = f"listed:{kind_name}:{clause}"
+    if len(ctx.violations) >= MAX_VIOLATIONS or ctx.counters.get(k, 0) >= MAX_PER_KIND_CLAUSE:
+        ctx.count("violations_not_listed")
+        return False
+    ctx.count(k)
+    return True
 
 
 def hist_text(scn: dict, upto: int | None = None) -> str:
@@ -74,8 +85,7 @@ def report_scenario_failures(ctx: Ctx, scn: dict, res: dict) -> None:
             key = f"{kind['name']}:{f['clause']}:{hist_text(scn, f['at'])}"
         else:
             key = f"{kind['name']}:{f['clause']}:{f.get('class', '-')}"
-        if len(ctx.violations) >= MAX_VIOLATIONS:
-            ctx.count("violations_not_listed")
+        if not _room(ctx, kind["name"], f["clause"]):
             continue
         ctx.violation(key, f"{kind['name']} (agg={kind['agg']}, a={kind['a']}, b={kind['b']}) after history "
                            f"[{hist_text(scn, f['at'])}]: clause '{f['clause']}' – expected {f.get('want')}, "
@@ -125,8 +135,7 @@ def check_homogeneity(ctx: Ctx, singles: list[tuple[dict, dict]]) -> None:
             ctx.extra["hom_worst_ratio"] = max(ctx.extra.get("hom_worst_ratio", 0.0), worst)
             if bool((dev > allow).any()):
                 ctx.count("clause:not_homogeneous")
-                if len(ctx.violations) >= MAX_VIOLATIONS:
-                    ctx.count("violations_not_listed")
+                if not _room(ctx, kind["name"], "not_homogeneous"):
                     continue
                 key = f"{kind['name']}:not_homogeneous:{lib.class_text(c)}"
                 ctx.violation(key, f"{kind['name']}: A(2^{c['e']} J) * 2^{-c['e']} = {ae.tolist()} but A(J) = "
@@ -156,8 +165,7 @@ def validate_episodes(ctx: Ctx, episodes: list[dict]) -> dict:
         st = e["steps"][rj["at"] - 1]
         kind = e["kind"]
         ctx.count("clause:" + rj["clause"])
-        if len(ctx.violations) >= MAX_VIOLATIONS:
-            ctx.count("violations_not_listed")
+        if not _room(ctx, "trace:" + kind["agg"], rj["clause"]):
             continue
         cj = dict(st["c"], J=st.get("J"))
         key = f"trace:{kind['name']}:{rj['clause']}:{lib.class_text(st['c'])}:{st.get('J')}"
@@ -249,6 +257,17 @@ def run(ctx: Ctx, replay: str | None) -> None:
         elif len(calls) >= 2 and calls[-1]["expect"] == "vector" and r["memo_checked"]:
             ctx.nontrivial(("hist", scn["kind"]["name"], hist_text(scn)))
     check_homogeneity(ctx, singles)
+    # outside the rejection clause (DESIGN.md 9): what ConFIG does with inputs it does not validate
+    seen = set()
+    for scn, r in singles:
+        st = scn["steps"][0]
+        if st["expect"] == "unspecified" and r["obs"]:
+            o = r["obs"][0]
+            what = o["outcome"] if o["outcome"] != "vector" else ("vector(finite)" if o["finite"] else "vector(non-finite)")
+            seen.add(f"{'x'.join(map(str, st['c']['dims'])) or '0-d'}/{st['c']['content']} -> {what}")
+    if seen:
+        ctx.note("ConFIG performs no input validation (not a violation, outside the rejection clause of C11): "
+                 + "; ".join(sorted(seen)[:12]))
     for i in (0, len(scenarios) // 2, len(scenarios) - 1):
         s = scenarios[i]
         ctx.sample({"scenario": {"kind": s["kind"]["name"], "history": hist_text(s),
